@@ -117,7 +117,7 @@ class C18(Check):
                "thrust_vector": v, "thrust_frame": rng.choice(["ntw", "eci"]), "planned": False}]
         name = rng.choice(["smm", "gpb1"])
         af = {"name": name, "orbit_determination": rng.choice(["lambert_universal", "lambert_battin"]), "model_interval": rng.choice([20, 30, 60, step, 2 * step]), "stacking_method": "eci_stack",
-              "observation_window": rng.choice([1, 1, 2, 3]), "prune_threshold": rng.choice([1e-20, 1e-10, 1e-3, 0.05]), "prune_percentage": rng.choice([0.9, 0.995, 0.997])}
+              "observation_window": rng.choice([1, 1, 2, 3]), "prune_threshold": rng.choice([1e-20, 1e-10, 1e-3, 0.05, 0.05, 0.2, 0.6]), "prune_percentage": rng.choice([0.9, 0.995, 0.997])}
         if name == "gpb1":
             af["mix_ratio"] = rng.choice([1.5, 5.0, 50.0])
         est = {"sequential_filter": {"name": "unscented_kalman_filter", "dynamics_model": "two_body", "alpha": rng.choice([0.05, 0.001, 0.5]), "beta": 2.0,
